@@ -80,8 +80,11 @@ def cases(tier, seed):
             out.append({"t": "B", "arity": 0, "klong": with_klong, "form": "direct", "args": []})
     # C: wrapper histories
     nc = 2500 if tier == "quick" else 40000
+    WIDE = [I(3), S("ab"), L([I(1), S("a")]), L([L([I(1)]), L([I(2), I(3)])]), L([]), L([S("ab"), S("c")]), L([I(1), L([I(2), S("x")])]), R(1.5), L([R(0.5), I(2)]), L([I(1), I(2)])]
     for _ in range(nc):
         steps = []
+        join = rng.random() < 0.3       # structural bodies (join) take any argument: mixed, ragged and nested lists cross the boundary
+        narrow = [I(3), I(0), R(1.5), L([I(1), I(2)]), I(-4)]
         ar = rng.randint(0, 3)
         steps.append(["def", ar, rng.randint(1, 9)])
         n = rng.randint(3, 9)
@@ -95,10 +98,10 @@ def cases(tier, seed):
                 steps.append(["del"])
             elif r < 0.85:
                 k = rng.choice([None, None, None, -1, 1])
-                steps.append(["call", k, [rng.choice([I(3), I(0), R(1.5), L([I(1), I(2)]), I(-4)]) for _ in range(4)]])
+                steps.append(["call", k, [rng.choice(WIDE if join else narrow) for _ in range(4)]])
             else:
-                steps.append(["callfresh", [rng.choice([I(3), I(5), L([I(1), I(2)])]) for _ in range(4)]])
-        out.append({"t": "C", "steps": steps})
+                steps.append(["callfresh", [rng.choice(WIDE if join else [I(3), I(5), L([I(1), I(2)])]) for _ in range(4)]])
+        out.append({"t": "C", "steps": steps, "join": join})
     return out
 
 
@@ -316,8 +319,17 @@ def _run_B(case, res):
 
 # ------------------------------------------------------------------ C
 
-def _body(ar, n):
+def _body(ar, n, join=False):
+    if join:
+        return {0: "{,%d}" % n, 1: "{(,x),%d}" % n, 2: "{(,x),(,y),%d}" % n, 3: "{(,x),(,y),(,z),%d}" % n}[ar]
     return {0: "{%d}" % n, 1: "{x+%d}" % n, 2: "{(x*10)+y+%d}" % n, 3: "{(x*100)+(y*10)+z+%d}" % n}[ar]
+
+
+def _pyval(c):
+    """Plain Python value for a canonical one (nested lists stay Python lists: the wrapper converts them)."""
+    if c[0] == "L":
+        return [_pyval(x) for x in c[1]]
+    return c[1]
 
 
 def _run_C(case, res):
@@ -328,7 +340,7 @@ def _run_C(case, res):
     cmpn = 0
     for st in case["steps"]:
         if st[0] == "def":
-            txt = "kf::%s" % _body(st[1], st[2])
+            txt = "kf::%s" % _body(st[1], st[2], case.get("join", False))
             hist.append(txt)
             kl.ev(k, txt)
             cur = (st[1], st[2])
@@ -361,7 +373,7 @@ def _run_C(case, res):
             if target is None:
                 # unspecified: executed, not judged
                 nargs = made[0]
-                pyargs = [kl.topy(a, k) if a[0] != "L" else [x[1] for x in a[1]] for a in argsc[:nargs]]
+                pyargs = [kl.topy(a, k) if a[0] != "L" else _pyval(a) for a in argsc[:nargs]]
                 hist.append("%s(%s)  # name deleted: not judged" % (wname, ",".join(brief(a) for a in argsc[:nargs])))
                 try:
                     w(*pyargs)
@@ -373,7 +385,7 @@ def _run_C(case, res):
                 nargs = target[0]
                 off = None
             use = argsc[:nargs]
-            pyargs = [kl.topy(a, k) if a[0] != "L" else [x[1] for x in a[1]] for a in use]
+            pyargs = [kl.topy(a, k) if a[0] != "L" else _pyval(a) for a in use]
             hist.append("%s(%s)" % (wname, ",".join(brief(a) for a in use)))
             try:
                 got = ("ok", w(*pyargs))
